@@ -678,7 +678,7 @@ class Interp:
                     return None
                 return self.decide(("nonempty", v.oid))
             return True
-        if isinstance(v, (FuncV, ClassV, ModV, ExtV, Bound)):
+        if isinstance(v, (FuncV, ClassV, ModV, ExtV, Bound, LambdaV)):
             return True
         if isinstance(v, Sym) and v.tag == "not":
             t = self.truth(v.args[0], fr, fork)
@@ -927,7 +927,26 @@ class Interp:
         return Ref(o.oid)
 
     def ex_Lambda(self, e, fr):
-        return Sym("lambda", Const(ast.unparse(e)))
+        return LambdaV(e, fr)
+
+    def call_lambda(self, lam, args, kwargs):
+        a = lam.node.args
+        params = [x.arg for x in a.posonlyargs + a.args]
+        defaults = [None] * (len(params) - len(a.defaults)) + list(a.defaults)
+        env = {}
+        for i, p in enumerate(params):
+            if i < len(args):
+                env[p] = args[i]
+            elif p in kwargs:
+                env[p] = kwargs[p]
+            elif defaults[i] is not None:
+                env[p] = self.eval(defaults[i], lam.frame)
+            else:
+                env[p] = Sym("missing", p)
+        sub = Frame(lam.frame.func, lam.frame.module, env)
+        sub.closure = lam.frame
+        sub.entry_loop_depth, sub.entry_maybe = self.loop_depth, self.maybe
+        return self.eval(lam.node.body, sub)
 
     def ex_IfExp(self, e, fr):
         t = self.truth(self.eval(e.test, fr), fr, fork=self.can_fork())
@@ -1208,10 +1227,14 @@ class Interp:
         o = self.obj(it)
         if o is not None:
             if o.kind in ("list", "tuple"):
+                if o.items is not None and len(o.items) == 0 and (not self.weak(o) or o.kind == "tuple"):
+                    return Sym("noelem")      # iteration over a known-empty literal: the body never runs with a value
                 return o.elem if o.elem is not None else Sym("elem", self.sym_of(it))
             if o.kind == "dict":
                 return Sym("key", self.sym_of(it))
             return Sym("elem", self.sym_of(it))
+        if isinstance(it, Const) and it.v is None:
+            return Sym("noelem")              # iterating None raises: no value reaches the body
         if isinstance(it, Sym) and it.tag == "enumerate":
             inner = self.iter_elem(it.args[0], fr, node)
             return self.new_list(items=[Sym("index", vkey_s(it.args[0])), inner], kind="tuple")
@@ -1251,7 +1274,7 @@ class _ModuleFunc:
 
 STR_LIKE_METHODS = {"split", "replace", "strip", "lstrip", "rstrip", "startswith", "endswith", "join", "format", "lower", "upper",
                     "count", "index", "find", "encode", "decode", "zfill", "rjust", "ljust", "splitlines", "isdigit"}
-OPAQUE_METHODS = {"astype", "reshape", "any", "all", "sum", "copy", "tolist", "items", "keys", "values", "get", "evolve", "to_labels",
+OPAQUE_METHODS = {"joinpath", "read_text", "read_bytes", "is_file", "exists", "open", "astype", "reshape", "any", "all", "sum", "copy", "tolist", "items", "keys", "values", "get", "evolve", "to_labels",
                   "to_matrix", "fill", "transpose", "get_counts", "bit_count", "commutes_with_all", "update", "append", "reverse",
                   "T", "dot", "flatten", "nonzero", "astype", "id", "name", "to_list", "expand", "validate", "is_qubit_entangled",
                   "compress", "get_edges", "has_edge", "add_edge", "pop", "extend", "insert", "sort", "setdefault", "clear", "remove"}
